@@ -310,11 +310,12 @@ func (x *Exec) noteGuardedContents(l *Loc, v Term) {
 	if x.u.guardOrigin == nil {
 		x.u.guardOrigin = map[string]guardOrigin{}
 	}
-	x.u.guardOrigin[v.S] = guardOrigin{key: "lock:" + (&Loc{Kind: "heap", Ptr: l.Ptr, Root: l.Root, Path: []PathElem{{Field: 0}}}).String(), name: named.Obj().Name() + "." + stt.Field(l.Path[0].Field).Name(), mutex: g.Mutex}
+	x.u.guardOrigin[v.S] = guardOrigin{key: "lock:" + (&Loc{Kind: "heap", Ptr: l.Ptr, Root: l.Root, Path: []PathElem{{Field: 0}}}).String(), name: named.Obj().Name() + "." + stt.Field(l.Path[0].Field).Name(), mutex: g.Mutex, addOnly: g.AddOnly[stt.Field(l.Path[0].Field).Name()]}
 }
 
 type guardOrigin struct {
 	key, name, mutex string
+	addOnly          bool
 }
 
 // contentsGuard: an operation on a map that was loaded from a guarded-contents field.
@@ -829,6 +830,14 @@ func (x *Exec) lookup(in *ssa.Lookup, st *State) Value {
 func (x *Exec) mapUpdate(m Term, mt *types.Map, k, v Term, st *State) {
 	x.contentsGuard(m, true, st)
 	md, mv, mc, ks, vs := mapHeaps(x.u.W, mt)
+	if o, ok := x.u.guardOrigin[m.S]; ok && o.addOnly && !x.pure {
+		dom0, val0, _ := x.mapParts(m, mt, st)
+		v0 := v
+		if vs == SReal {
+			v0 = ToReal(v)
+		}
+		x.obl("interference[add-only "+o.name+"]", "lock", "an entry of "+o.name+" is never replaced: the key is absent, or already maps to the value stored (other goroutines may hold the old value)", st, Or(Not(Select(dom0, k)), Eq(Select(val0, k), v0)))
+	}
 	x.obl("safety[nil-map-write]", "safety", "assignment to entry in nil map", st, Not(Eq(m, TNil)))
 	x.frameCheck(md, m, st)
 	hd := st.Heap(md, ArraySort(SPtr, ArraySort(ks, SBool)))
@@ -847,6 +856,10 @@ func (x *Exec) mapUpdate(m Term, mt *types.Map, k, v Term, st *State) {
 func (x *Exec) mapDelete(m Term, mt *types.Map, k Term, st *State) {
 	x.contentsGuard(m, true, st)
 	md, _, mc, ks, _ := mapHeaps(x.u.W, mt)
+	if o, ok := x.u.guardOrigin[m.S]; ok && o.addOnly && !x.pure {
+		dom0, _, _ := x.mapParts(m, mt, st)
+		x.obl("interference[add-only "+o.name+"]", "lock", "no entry of "+o.name+" is ever removed", st, Not(Select(dom0, k)))
+	}
 	hd := st.Heap(md, ArraySort(SPtr, ArraySort(ks, SBool)))
 	hc := st.Heap(mc, ArraySort(SPtr, SInt))
 	dom := Select(hd, m)
